@@ -171,6 +171,50 @@ def gen_add_op(loader, check, replay_on=True):
                        "registered operand; with it, the add_op contract used in contracts/tkit.py is exactly what is discharged here")
 
 
+    # registering the SAME node twice (callbacks such as cancel_slot_stmt / chk_hybrid_dep pass a node through add_op again): the second
+    # call changes nothing - one name, one registration, one declaration
+    for kind in ("NOP", "Assignment", "Sequence", "ArithmeticOp", "Variable"):
+        inst = f"op={kind} added twice"
+        check.instances_declared += 1
+
+        def setup2(it, kind=kind):
+            t = tkit.mk_transformer(it, stub_add_op=False)
+            if kind in ("Assignment", "NOP"):
+                o = c05.mk_effect(it, loader, kind, "eff")
+                o.stubs.clear()
+            elif kind == "Sequence":
+                o = it.call(irkit.C(loader, "Sequence"), ["seq", [c05.mk_effect(it, loader, "NOP", "x")]], {})
+            else:
+                o = irkit.mk_operand(it, kind, (True, 32), "x")
+                o.stubs.clear()
+            return {"t": t, "o": o}
+
+        def run2(it, st):
+            r1 = it.call(tkit.method(it, st["t"], "add_op"), [st["o"]], {})
+            n1 = it.call(it.getattr_(r1, "get_name"), [], {})
+            c1 = st["t"].fields["il_ops_holder"].fields["op_count"]
+            r2 = it.call(tkit.method(it, st["t"], "add_op"), [r1], {})
+            n2 = it.call(it.getattr_(r2, "get_name"), [], {})
+            return r1, n1, c1, r2, n2
+        ex = explore(loader, setup2, run2)
+        check.absorb(ex, f"add_op {inst}")
+        if ex.paths:
+            check.instances_generated += 1
+        for p in ex.paths:
+            if p.outcome != "return":
+                check.ob("add_op#total", inst, p.ctx.pc, False, detail=repr(p.value))
+                continue
+            r1, n1, c1, r2, n2 = p.value
+            h = p.state["t"].fields["il_ops_holder"]
+            c2 = h.fields["op_count"]
+            regs = sum(1 for d in ("read_ops", "exec_ops", "write_ops") for v in h.fields[d].values() if v is r1)
+            same_cnt = (c1 == c2) if not isinstance(c1, SInt) else z3.simplify(c1.t == c2.t)
+            ok_names = (n1 == n2) if isinstance(n1, str) else (isinstance(n2, Tpl) and n1.skey() == n2.skey())
+            check.ob("add_op#names: adding an already registered node again changes nothing (one name, one registration)", inst, p.ctx.pc,
+                     z3.And(z3.BoolVal(bool(r2 is r1 and ok_names and regs == 1)), same_cnt if not isinstance(same_cnt, bool) else z3.BoolVal(same_cnt)),
+                     detail=f"names {n1!r} / {n2!r}; registrations {regs}; op_count {c1} -> {c2}",
+                     replay=("c11.twice", lambda mdl: {}) if replay_on and kind == "NOP" else None)
+
 def it_name(o):
     return o.fields.get("isa_name") or o.fields.get("name")
 
@@ -546,6 +590,15 @@ def gen_task(loader, check, what, replay_on=True):
         own[what](loader, check, replay_on)
     else:
         gen_shared(loader, check, what, replay_on)
+
+
+@replay.register("c11.twice")
+def replay_twice(a):
+    c = irkit.real_compiler()
+    txt = c.compile_c_stmt("{ if (RsV) { RdV = 1; } else { cancel_slot; } }")
+    decl = [l.split("*")[1].split(" ")[0] for l in txt.splitlines() if l.startswith("RzILOp")]
+    dup = sorted({d for d in decl if decl.count(d) > 1})
+    return bool(dup), f"{{ if (RsV) {{ RdV = 1; }} else {{ cancel_slot; }} }}: variables declared more than once: {dup}"
 
 
 def generate_reduced(loader, check):
